@@ -115,6 +115,11 @@ META['stubs'] += ['struct l1s_state object laid out with compiler-computed offse
 META['explanation'] += '; firmware: rfch_get_params() executed symbolically from LLVM IR for each N with l1s.dedicated.h1 = (hsn, maio, N, MA) symbolic: ARFCN == MA[MAI_ref]; all table indices in bounds; Python == reference and C == reference give Python == C'
 
 
+def MA_C(k):
+    """mobile allocation used on the firmware side: plain ARFCNs and entries carrying the ARFCN_PCS (0x8000) / ARFCN_UPLINK (0x4000) flags"""
+    return (0x8000 | (512 + k)) if k % 3 == 1 else (0x4000 | (128 + k)) if k % 3 == 2 else 1000 + 7 * k
+
+
 def _offs():
     return cjob.offsets(PRELUDE, FIELDS, cjob.FW_INCS)
 
@@ -140,7 +145,7 @@ def _setup(ex, j, n, hopping=True):
     cells[o[FIELDS[1]]] = (tsz, C(1))                      # dedicated.type != GSM_DCHAN_NONE
     cells[o[FIELDS[2]]] = (1, C(1 if hopping else 0))
     cells[o[FIELDS[3]]] = (1, hsn); cells[o[FIELDS[4]]] = (1, maio); cells[o[FIELDS[5]]] = (1, C(n))
-    ma = [1000 + 7 * k for k in range(64)]
+    ma = [MA_C(k) for k in range(64)]
     for k in range(64): cells[o[FIELDS[6]] + 2 * k] = (2, C(ma[k]))
     cells[o[FIELDS[8]]] = (1, C(5)); cells[o[FIELDS[9]]] = (1, C(3))
     # struct gsm_time argument = decomposition of fn
@@ -209,7 +214,7 @@ int main(int argc, char **argv) {
     uint32_t fn = strtoul(argv[i], 0, 10); struct gsm_time t; gsm_fn2gsmtime(&t, fn);
     memset(&l1s, 0, sizeof(l1s));
     l1s.dedicated.type = 1; l1s.dedicated.h = 1; l1s.dedicated.h1.hsn = atoi(argv[i+1]); l1s.dedicated.h1.maio = atoi(argv[i+2]); l1s.dedicated.h1.n = atoi(argv[i+3]);
-    for (int k = 0; k < 64; k++) l1s.dedicated.h1.ma[k] = 1000 + 7 * k;
+    for (int k = 0; k < 64; k++) l1s.dedicated.h1.ma[k] = (k % 3 == 1) ? (0x8000 | (512 + k)) : (k % 3 == 2) ? (0x4000 | (128 + k)) : 1000 + 7 * k;   /* incl. ARFCN_PCS / ARFCN_UPLINK flagged entries */
     uint16_t arfcn = 0; uint8_t tsc, tn;
     rfch_get_params(&t, &arfcn, &tsc, &tn);
     printf("%u\n", arfcn);
